@@ -24,7 +24,7 @@ func init() {
 		Rules: []RuleDef{
 			{ID: "C01.R1", Min: 6, Doc: "route fan-out: the Route.Dispatch call site lies in a range loop over the `routes` slice of the single loaded TableConfig, its receiver is the loop element, it is dominated by the true edge of Match on the same element, the loop exits only by exhaustion, and on every path each Match is followed by at most one Dispatch, only after a true result", Run: c01r1},
 			{ID: "C01.R2", Min: 9, Doc: "destination fan-out policy per route type (range loop over Dests(), send on the loop element's In guarded by that element's Match; all-match: no early exit; first-match: no path from the send back to the loop header; hashing: one send per call) and registry binding of names to constructors", Run: c01r2},
-			{ID: "C01.R4", Min: 10, Doc: "what is matched is what is forwarded: every route/destination filter is evaluated on the current (rewritten) metric name and the line handed to the routes is the single-space join of the same fields and filters are only installed when their construction succeeded (rules C03.R1, C04.R2 and C03.R5 evaluated for this property as well)", Run: func(c *Check) { c03r1(c); c04r2(c); c03r5(c) }},
+			{ID: "C01.R4", Min: 10, Doc: "what is matched is what is forwarded: every route/destination filter is evaluated on the current (rewritten) metric name and the line handed to the routes is the single-space join of the same fields and filters are only installed when their construction succeeded and a line is withheld from the routes only when a drop-raw aggregation really consumed it (rules C03.R1, C04.R2, C03.R5 and C11.R3 evaluated for this property as well)", Run: func(c *Check) { c03r1(c); c04r2(c); c03r5(c); c11r3(c) }},
 			{ID: "C01.R3", Min: 3, Doc: "terminal accounting by path enumeration of the Dispatcher implementation: numIn.Inc exactly once; exactly one terminal class per path; rejecting outcomes are followed by no AddMaybe / Route.Dispatch / send; numUnroutable only on paths without any Route.Dispatch", Run: c01r3},
 		},
 	})
@@ -195,13 +195,22 @@ func c01r2(c *Check) {
 	inField := c.P.Field("destination", "Destination", "In")
 	destMatch := "(*" + modPath + "/destination.Destination).Match"
 	for _, typ := range []string{"SendAllMatch", "SendFirstMatch"} {
-		fn := c.P.Func("route", "*"+typ, "Dispatch")
-		sends := sendsOn(fn, inField)
+		entry := c.P.Func("route", "*"+typ, "Dispatch")
+		// the destination loop may live in a helper shared by the route types
+		var sends []ssa.Instruction
+		for _, f := range samePkgCallees(c.P, entry) {
+			sends = append(sends, sendsOn(f, inField)...)
+		}
 		if len(sends) != 1 {
-			c.Violate("route."+typ+" sends", c.AtFn(fn), fmt.Sprintf("expected exactly one send site on Destination.In, found %d", len(sends)))
+			c.Violate("route."+typ+" sends", c.AtFn(entry), fmt.Sprintf("expected exactly one send site on Destination.In, found %d", len(sends)))
 			continue
 		}
-		s := sends[0].(*ssa.Send)
+		s, isSend := sends[0].(*ssa.Send)
+		if !isSend {
+			c.Violate("route."+typ+" sends", c.At(sends[0]), "the hand-off to the destination is not a plain send")
+			continue
+		}
+		fn := s.Parent()
 		loops := loopsOf(fn)
 		l := enclosingLoop(loops, s.Block())
 		key := "route." + typ + ".Dispatch"
@@ -242,40 +251,103 @@ func c01r2(c *Check) {
 			}
 		}
 		c.Judge(guarded, key+" guard", c.At(s), "dominated by the true edge of Match on the same destination", "the send is not controlled by dest.Match() == true of the same destination")
-		// policy
-		inBody := func(b *ssa.BasicBlock) bool { return l.Body[b] || b == s.Block() }
-		reachHeader := false
-		seen := map[*ssa.BasicBlock]bool{}
-		work := []*ssa.BasicBlock{}
-		for _, su := range s.Block().Succs {
-			work = append(work, su)
+		// policy, by path enumeration from the route type's own Dispatch (helpers expanded, so a
+		// policy flag passed as a constant argument selects the branch): what happens after a send
+		hdr := l.Header.Instrs[0]
+		exits := map[*ssa.BasicBlock]bool{} // blocks entered when the loop is left
+		for _, e := range l.Exits() {
+			exits[e.to] = true
 		}
-		for len(work) > 0 {
-			b := work[len(work)-1]
-			work = work[:len(work)-1]
-			if seen[b] || !inBody(b) {
-				continue
-			}
-			seen[b] = true
-			if b == l.Header {
-				reachHeader = true
-				break
-			}
-			work = append(work, b.Succs...)
+		cfg := &PathCfg{
+			BackEdgeMax: 2,
+			Inline:      func(g *ssa.Function) bool { return fnPkg(g) == fnPkg(entry) && g.Name() != "Match" },
+			Classify: func(in ssa.Instruction) []string {
+				if in == hdr {
+					return []string{"header"}
+				}
+				if in == ssa.Instruction(s) {
+					if exits[s.Block()] {
+						// the send sits in the block a `break` path runs through: it belongs to the iteration, the loop is left after it
+						return []string{"send", "left"}
+					}
+					return []string{"send"}
+				}
+				if in.Block() != nil && exits[in.Block()] && in.Block() != s.Block() && in == in.Block().Instrs[0] {
+					return []string{"left"}
+				}
+				return nil
+			},
+			Branch: func(ifi *ssa.If, cond ssa.Value, taken bool) []string {
+				cnd, neg := negStrip(cond)
+				if call, ok := cnd.(*ssa.Call); ok && calleeName(call.Common()) == destMatch {
+					if taken != neg {
+						return []string{"match:T"}
+					}
+					return []string{"match:F"}
+				}
+				return nil
+			},
 		}
-		if typ == "SendAllMatch" {
-			ok2, _ := loopExitsOnlyFromHeader(l)
-			c.Judge(ok2 && reachHeader, key+" policy all-match", c.At(s), "after a send the loop continues; it ends only by exhaustion", "send-all-match must visit every destination: the loop is left early after a send (break/return)")
-		} else {
-			c.Judge(!reachHeader, key+" policy first-match", c.At(s), "every path from the send leaves the loop", "send-first-match must stop at the first accepting destination: after the send the loop continues and later matching destinations get a duplicate")
-			// exits other than header must come only after the send
-			okExit := true
-			for _, e := range l.Exits() {
-				if e.from != l.Header && !(e.to == s.Block() || s.Block().Dominates(e.to)) {
-					okExit = false
+		paths, trunc := EnumPaths(entry, nil, cfg)
+		bad := ""
+		nSendPaths := 0
+		for i := range paths {
+			pa := &paths[i]
+			for j, e := range pa.Events {
+				if e.Class != "send" {
+					continue
+				}
+				nSendPaths++
+				// what follows the send: the loop header again, or the loop is left
+				next := ""
+				for _, e2 := range pa.Events[j+1:] {
+					if e2.Class == "header" || e2.Class == "left" {
+						next = e2.Class
+						break
+					}
+				}
+				if typ == "SendAllMatch" && next == "left" {
+					bad = "send-all-match must visit every destination: the loop is left right after a send (break/return): " + pa.String()
+				}
+				if typ == "SendFirstMatch" && next == "header" {
+					bad = "send-first-match must stop at the first accepting destination: after the send the loop continues and later matching destinations get a duplicate: " + pa.String()
+				}
+				// nothing is sent before a match in this iteration
+				prev := ""
+				for k := j - 1; k >= 0; k-- {
+					if cl := pa.Events[k].Class; cl == "match:T" || cl == "match:F" || cl == "header" {
+						prev = cl
+						break
+					}
+				}
+				if prev != "match:T" {
+					bad = "a send that does not follow a positive Match in the same iteration: " + pa.String()
 				}
 			}
-			c.Judge(okExit, key+" exits", c.At(s), "the loop is left early only after a send", "the loop can be left before any destination matched")
+			// the loop is left early only after a send (first-match) or never (all-match)
+			for j, e := range pa.Events {
+				if e.Class == "left" {
+					// the event before it (ignoring match results) must be header (exhausted) or send
+					prev := ""
+					for k := j - 1; k >= 0; k-- {
+						if cl := pa.Events[k].Class; cl == "header" || cl == "send" || cl == "match:T" || cl == "match:F" {
+							prev = cl
+							break
+						}
+					}
+					if prev == "match:F" || prev == "match:T" || (prev == "send" && typ == "SendAllMatch") {
+						if bad == "" {
+							bad = "the destination loop is left before all destinations were looked at: " + pa.String()
+						}
+					}
+				}
+			}
+		}
+		policy := map[string]string{"SendAllMatch": "policy all-match", "SendFirstMatch": "policy first-match"}[typ]
+		if trunc || nSendPaths == 0 {
+			c.Undecided(key+" "+policy, c.At(s), "no sending path enumerated")
+		} else {
+			c.Judge(bad == "", key+" "+policy, c.At(s), fmt.Sprintf("%d paths with a send: the loop %s", nSendPaths, map[string]string{"SendAllMatch": "continues with the next destination after every send and ends only by exhaustion", "SendFirstMatch": "is left right after the first send"}[typ]), bad)
 		}
 	}
 	// consistent hashing: one send on the found path
@@ -399,7 +471,16 @@ func c01registry(c *Check) {
 		}
 		n := calleeName(call.Common())
 		if !strings.HasPrefix(n, modPath+"/route.New") {
-			return
+			// the constructor may be handed to a helper as a function value
+			n = ""
+			for _, a := range call.Call.Args {
+				if f := resolveFuncValue(a); f != nil && strings.HasPrefix(funcCanonical(f), modPath+"/route.New") {
+					n = funcCanonical(f)
+				}
+			}
+			if n == "" {
+				return
+			}
 		}
 		for _, b := range ir.Blocks {
 			ifi, ok := b.Instrs[len(b.Instrs)-1].(*ssa.If)
